@@ -444,6 +444,47 @@ func c13(c *Ctx) {
 			}
 		})
 		r.Check("memo:stores-informer-result-under-ip", okSt, ifc.Pos(), "p.cache[ip] = instanceFromInformer(ip)")
+		// an answer is the memo's entry for this ip or what the informer just said: there is no other store of
+		// answers (one that invalidation does not reach would keep serving a pod version that is gone)
+		badSrc := ""
+		nRet := 0
+		eachInstr(ifc, func(in ssa.Instruction) {
+			rt, ok := in.(*ssa.Return)
+			if !ok || len(rt.Results) != 1 {
+				return
+			}
+			nRet++
+			seen := map[ssa.Value]bool{}
+			var leaf func(v ssa.Value)
+			leaf = func(v ssa.Value) {
+				if seen[v] {
+					return
+				}
+				seen[v] = true
+				switch x := v.(type) {
+				case *ssa.Phi:
+					for _, e := range x.Edges {
+						leaf(e)
+					}
+				case *ssa.Lookup:
+					if !(strings.HasSuffix(pathOf(x.X), "p.cache") && paramIndex(ifc, x.Index) == 1) {
+						badSrc = exprString(x, 0)
+					}
+				case *ssa.Extract:
+					leaf(x.Tuple)
+				case *ssa.Const:
+					if x.Value != nil {
+						badSrc = exprString(x, 0)
+					}
+				default:
+					if inf == nil || v != inf.(ssa.Value) {
+						badSrc = exprString(v, 0)
+					}
+				}
+			}
+			leaf(rt.Results[0])
+		})
+		r.Check("memo:answers-from-memo-or-informer", nRet >= 1 && badSrc == "", ifc.Pos(), "every answer is p.cache[ip] or instanceFromInformer(ip) "+badSrc)
 	})
 
 	c.Rule("C13.R6", "the informer's store holds what the lookups read: if a transform is installed on the pod informer, every pod field read by the index function, the eligibility predicate, the invalidation handler and the instance builder is carried over by it", 1, func(r *Rule) {
@@ -705,6 +746,15 @@ func c13(c *Ctx) {
 				r.Check("tags:annotations-use-annotation-regex", re == "p.annotationRegex", cl.Pos(), "annotations matched with "+re)
 			default:
 				r.Fail("tags:source", cl.Pos(), "tag name computed from "+key)
+			}
+			// every key of the map is put to the regex: inside the range loop nothing comes between taking a
+			// key and matching it (a key that is skipped loses a tag the regex would have given it)
+			if ex, isEx := cl.Common().Args[1].(*ssa.Extract); isEx {
+				if nx, isNx := ex.Tuple.(*ssa.Next); isNx && len(nx.Block().Succs) == 2 {
+					head, body := nx.Block(), nx.Block().Succs[0]
+					skipped := body != cl.Block() && pathsAvoiding(body, head, func(b *ssa.BasicBlock) bool { return b == cl.Block() })
+					r.Check("tags:every-key-is-matched:"+re, !skipped, cl.Pos(), "every iteration over the keys reaches getTagNameFromRegex")
+				}
 			}
 			// appended only when non-empty, as name + ":" + value of the same entry
 			okApp := false
